@@ -1,11 +1,11 @@
 use crate::PackageId;
 use indexmap::IndexMap;
 use petgraph::graph::NodeIndex;
-use std::collections::HashMap;
+use std::collections::{HashMap, HashSet};
 use wac_types::{
     CoreExtern, DefinedType, DefinedTypeId, Enum, Flags, FuncTypeId, InterfaceId, ItemKind,
     ModuleTypeId, PrimitiveType, Record, ResourceId, Type, Types, UsedType, ValueType, Variant,
-    WorldId,
+    World, WorldId,
 };
 use wasm_encoder::{
     Alias, ComponentBuilder, ComponentCoreTypeEncoder, ComponentExportKind,
@@ -389,13 +389,27 @@ impl<'a> TypeEncoder<'a> {
 
         state.push(Encodable::Component(ComponentType::default()));
 
+        // An interface the world imports explicitly is encoded (in full) before
+        // anything that depends on it; otherwise the dependency would import it
+        // first and the explicit import would then repeat the import name.
+        let mut imported = HashSet::new();
         for used in world.uses.values() {
+            self.import_explicit_deps(state, world, used.interface, &mut imported);
             self.import_deps(state, used.interface);
         }
 
         self.use_aliases(state, &world.uses, &world.imports);
 
         for (name, kind) in &world.imports {
+            if imported.contains(name.as_str()) {
+                continue;
+            }
+            if let ItemKind::Instance(id) = kind {
+                for used in self.0[*id].uses.values() {
+                    self.import_explicit_deps(state, world, used.interface, &mut imported);
+                }
+            }
+            imported.insert(name);
             self.import(state, name, *kind);
         }
 
@@ -411,6 +425,29 @@ impl<'a> TypeEncoder<'a> {
                 index
             }
             _ => panic!("expected the pushed encodable to be a component type"),
+        }
+    }
+
+    /// Encodes the explicit imports of `world` that interface `id` is, or
+    /// transitively depends on, dependencies first.
+    fn import_explicit_deps(
+        &self,
+        state: &mut State,
+        world: &'a World,
+        id: InterfaceId,
+        imported: &mut HashSet<&'a str>,
+    ) {
+        let interface = &self.0[id];
+        for used in interface.uses.values() {
+            self.import_explicit_deps(state, world, used.interface, imported);
+        }
+
+        if let Some(iid) = &interface.id {
+            if let Some((name, kind @ ItemKind::Instance(_))) = world.imports.get_key_value(iid) {
+                if imported.insert(name.as_str()) {
+                    self.import(state, name, *kind);
+                }
+            }
         }
     }
 
